@@ -190,6 +190,24 @@ Theorem C11_helper_keys :
 Proof. exact helper_keys. Qed.
 Print Assumptions C11_helper_keys.
 
+(** MGetCache end to end: DoMultiCache over [GET k] commands, then the key map; every key is bound to the
+    value of what [GET k] alone would be answered (hit / other caller's flight / server reply) *)
+Theorem C11_mget_cache :
+  forall lookup srv qerr optin use_lru (keys : list key),
+    keys <> [] ->
+    (forall k c v, lookup k c = LHit v -> m_typ v <> 0%N) ->
+    (forall k c r, lookup k c = LWait r -> filled r) ->
+    (forall a, m_typ (srv a) <> 0%N) ->
+    (forall a e, qerr a = Some e -> m_typ e <> 0%N) ->
+    (forall k, In k keys -> exists r, expected lookup srv qerr optin false (get_item k) = Ok r /\ r_err r = None) ->
+    exists rs m,
+      do_multi_cache lookup srv qerr optin use_lru (map get_item keys) = Ok rs /\
+      helper_do_multi_cache keys rs [] = Ok (inl m) /\
+      (forall k, In k keys -> exists r, expected lookup srv qerr optin false (get_item k) = Ok r /\ kv_get k m = Some (r_val r)) /\
+      (forall k, ~ In k keys -> kv_get k m = None).
+Proof. exact mget_cache_end_to_end. Qed.
+Print Assumptions C11_mget_cache.
+
 (** ** non-vacuity: a batch with a hit, a foreign wait, misses and duplicates of each *)
 Definition nv_val (s : string) : msg := Msg tStr (bs s) 0%Z [].
 Definition nv_get (k : string) : item := mkItem [bs "GET"; bs k] false false.
